@@ -104,10 +104,11 @@ func (c *labConn) SetReadDeadline(t time.Time) error  { return nil }
 func (c *labConn) SetWriteDeadline(t time.Time) error { return nil }
 
 type labTask struct {
-	secretGo  chan struct{}
-	handlerGo chan int // reply code (0 = none)
-	started   chan string
-	peer      string
+	ctxDoneAtEnd bool
+	secretGo     chan struct{}
+	handlerGo    chan int // reply code (0 = none)
+	started      chan string
+	peer         string
 }
 
 type lab struct {
@@ -120,6 +121,7 @@ type lab struct {
 	downParked  map[int]chan struct{}
 	downRet     map[int]chan string
 	downCancel  map[int]context.CancelFunc
+	downCtx     map[int]context.Context
 	tasks       []*labTask
 	cur         *labTask
 	askCh       chan int      // secret source asked: task index
@@ -170,8 +172,14 @@ func (l *lab) ServeRADIUS(w radius.ResponseWriter, r *radius.Request) {
 		// released by Z: nobody waits for this handler
 		return
 	}
-	t.started <- fmt.Sprintf("%s:%d:%s:%s:%s:%s:ctx=%v", r.RemoteAddr.String(), r.Identifier, itoa(int(r.Code)), showAttributes(r.Attributes), hx(r.Secret), r.LocalAddr.String(), ctxOK)
+	t.started <- fmt.Sprintf("%s:%d:%s:%s:%s:%s:ctx=%v:done=%v", r.RemoteAddr.String(), r.Identifier, itoa(int(r.Code)), showAttributes(r.Attributes), hx(r.Secret), r.LocalAddr.String(), ctxOK, r.Context().Err() != nil)
 	code := <-t.handlerGo
+	// (sampled when the handler is about to return: Shutdown cancels the contexts of running handlers)
+	select {
+	case <-r.Context().Done():
+		t.ctxDoneAtEnd = true
+	default:
+	}
 	if code > 0 {
 		resp := r.Response(radius.Code(code))
 		resp.Add(18, radius.Attribute("reply"))
@@ -183,7 +191,7 @@ func (l *lab) ServeRADIUS(w radius.ResponseWriter, r *radius.Request) {
 
 func newLab(nconn int, skipVerify bool, secrets map[string][]byte) *lab {
 	l := &lab{secrets: secrets, serveParked: map[int]chan struct{}{}, serveRet: map[int]chan string{}, downParked: map[int]chan struct{}{},
-		downRet: map[int]chan string{}, downCancel: map[int]context.CancelFunc{}, askCh: make(chan int, 64), doneCh: make(chan struct{}, 64), hookCh: make(chan string, 8)}
+		downRet: map[int]chan string{}, downCancel: map[int]context.CancelFunc{}, downCtx: map[int]context.Context{}, askCh: make(chan int, 64), doneCh: make(chan struct{}, 64), hookCh: make(chan string, 8)}
 	l.srv = &radius.PacketServer{SecretSource: l, Handler: l, InsecureSkipVerify: skipVerify}
 	for i := 0; i < nconn; i++ {
 		l.conns = append(l.conns, &labConn{idx: i, in: make(chan labDgram), closed: make(chan struct{}), errGo: make(chan struct{}), readErr: make(chan error), reading: make(chan struct{}, 8), lab: l})
@@ -477,6 +485,9 @@ func runServerScenario(skipVerify bool, secretSpec string, cmds []string, w *os.
 					bytes.Equal(md5sum(raw[:4], reqWire[t][4:20], raw[20:], sec), raw[4:20])
 				o += fmt.Sprintf(":%s:conn%d:auth=%v:code=%d", parts[0], taskConn[t], auth, raw[0])
 			}
+			l.mu.Lock()
+			o += fmt.Sprintf(":cd=%v", l.tasks[t].ctxDoneAtEnd)
+			l.mu.Unlock()
 			ol.add(o)
 		case 'X':
 			j := atoi(arg)
@@ -484,8 +495,11 @@ func runServerScenario(skipVerify bool, secretSpec string, cmds []string, w *os.
 				ol.add("X=noop")
 				continue
 			}
-			ctx, cancel := context.WithCancel(context.Background())
-			l.downCancel[j] = cancel
+			ctx, ok := l.downCtx[j]
+			if !ok {
+				ctx, l.downCancel[j] = context.WithCancel(context.Background())
+				l.downCtx[j] = ctx
+			}
 			ret := make(chan string, 2)
 			l.downRet[j] = ret
 			go func() {
@@ -517,12 +531,16 @@ func runServerScenario(skipVerify bool, secretSpec string, cmds []string, w *os.
 			ol.add("x=ok")
 		case 'C':
 			j := atoi(arg)
-			if cancel, ok := l.downCancel[j]; ok {
-				cancel()
-				ol.add("C=ok")
-			} else {
+			if j < 0 || j > 3 {
 				ol.add("C=noop")
+				continue
 			}
+			if _, ok := l.downCancel[j]; !ok {
+				// the caller's context ends before Shutdown is called with it
+				l.downCtx[j], l.downCancel[j] = context.WithCancel(context.Background())
+			}
+			l.downCancel[j]()
+			ol.add("C=ok")
 		case 'W':
 			j := atoi(arg)
 			switch {
@@ -936,6 +954,9 @@ func genC07(g *Gen, tier string, emit func(op string, args ...string)) {
 	interleavings([][]string{serve(0), down(0, false)}, 0, g, sc)
 	// exhaustive: one Serve, one datagram, one Shutdown
 	interleavings([][]string{serve(0), dgram(0, 0, d0, 2), {"X0", "x0", "W0"}}, 0, g, sc)
+	// the caller's context may have ended before Shutdown is called with it (then both select arms can be ready)
+	interleavings([][]string{serve(0), {"C0"}, {"X0", "x0", "W0"}}, 0, g, sc)
+	interleavings([][]string{{"S0", "s0"}, dgram(0, 0, d0, 2), {"C0", "X0", "x0", "W0", "e0", "W0"}}, 0, g, sc)
 	n := 400
 	if tier == "thorough" {
 		n = 6000
@@ -1060,7 +1081,7 @@ func genC06(g *Gen, tier string, emit func(op string, args ...string)) {
 				if sec == nil {
 					sec = []byte("whatever")
 				}
-				id := byte(g.Pick(1, 1, 2, 3))
+				id := byte(g.Pick(1, 1, 2, 3, 0, 255))
 				var d []byte
 				switch g.Intn(9) {
 				case 0, 1, 2:
@@ -1070,6 +1091,12 @@ func genC06(g *Gen, tier string, emit func(op string, args ...string)) {
 					d, _ = p.Encode()
 				case 3:
 					d = accountingRequest(id, sec)
+					if g.Chance(1, 2) {
+						// an AUTHENTIC Disconnect- or CoA-Request (signed like an Accounting-Request)
+						p := &radius.Packet{Code: radius.Code(g.Pick(40, 43)), Identifier: id, Secret: sec}
+						p.Add(40, radius.NewInteger(1))
+						d, _ = p.Encode()
+					}
 				case 4: // forged accounting / CoA request
 					d = accountingRequest(id, []byte("wrong"))
 					if g.Bool() {
